@@ -11,7 +11,10 @@ AlgorithmV1::worst_case, UniversalGasPriceProvider::worst_case_gas_price and the
 dimensions (25 x 25, taken from the array type) are discharged by interval reasoning over the
 dominating comparisons of the index variable against constants (defect D4: `> 25` instead of `>= 25`,
 fixed); float casts (`as u64`, saturating) and saturating_* calls carry no panic edge; anything else
-must be a listed exception. obligations == discharged is required.
+must be a listed exception. obligations == discharged is required. In addition (structural, not at proof
+level): clause 3 checks the operand pairing of the estimators — each price component (exec, da) is compounded
+with its own maximum change rate between for_height and the requested height and the estimate is the
+saturating sum of the components — a necessary condition of the lower-bound clause.
 """
 NOT_DECIDED = """Monotonicity in the horizon and the lower bound against compounded integer rounding —
 floating-point value properties, not decidable structurally."""
@@ -47,3 +50,33 @@ def check(ctx):
             rb = u.root
             add = rb.calls_to("u32::checked_add") + [c for bd in u.bodies for c in bd.calls_to("u32::checked_add")]
             ctx.expect_sites("2.horizon-checked-add", add, at_least=1, what="checked_add(horizon, latest height)")
+    # -- 3. lower bound, structural part: each price component is compounded with its own rate over the same horizon --
+    with ctx.clause("3.component-pairing"):
+        V1 = "fuel_gas_price_algorithm::v1::AlgorithmV1"
+        wb = F.unit(f"{V1}::worst_case").root
+        calls = [c for c in wb.calls_to("fuel_gas_price_algorithm::utils::cumulative_percentage_change") if c.bb in wb.live]
+        o = Origins(wb, 0)
+        pairs = {"new_exec_price": "exec_price_percentage", "new_da_gas_price": "da_gas_price_percentage"}
+        seen = set()
+        for i, c in enumerate(sorted(calls, key=lambda c: c.bb)):
+            price = {str(v).split(".")[-1] for k, v in o.atoms(c.args[0]) if k == "field"} & set(pairs)
+            rate = {str(v).split(".")[-1] for k, v in o.atoms(c.args[2]) if k == "field"}
+            okp = len(price) == 1 and rate == {pairs[next(iter(price))]}
+            seen |= price
+            ctx.add(f"3.component-{i}-compounded-with-own-rate", "PROV", okp, f"cumulative_percentage_change({sorted(price)}, .., {sorted(rate)}, ..): a price component must grow with its own maximum change rate "
+                    "(the estimate is a lower bound only if neither component is compounded with the other's smaller rate)", sites=[c.where()], site_key=f"pair{i}")
+            ctx.arg_origin(f"3.component-{i}-from-block-height", c, 1, f"field:{V1}.for_height", depth=0)
+            ctx.arg_origin(f"3.component-{i}-to-target-height", c, 3, "param:2", depth=0)
+        ctx.add("3.both-components-estimated", "PROV", seen == set(pairs), f"components estimated: {sorted(seen)}", sites=[c.where() for c in calls], site_key="both")
+        sa = ctx.one_call(wb, "u64::saturating_add", "core::num::<impl u64>::saturating_add")
+        at = o.atoms(sa.args[0]) | o.atoms(sa.args[1])
+        ctx.add("3.estimate-is-sum-of-components", "PROV", sum(1 for k, v in at if k == "call" and str(v).endswith("cumulative_percentage_change")) >= 1 and
+                all(atom_match(o.atoms(a), "call:fuel_gas_price_algorithm::utils::cumulative_percentage_change") for a in sa.args[:2]),
+                "worst case = exec estimate + da estimate (saturating)", sites=[sa.where()], site_key="sum")
+        ctx.flows("3.sum-returned", sa, to_return=True)
+        V0 = "fuel_gas_price_algorithm::v0::AlgorithmV0"
+        w0 = F.unit(f"{V0}::worst_case").root
+        c0 = ctx.one_call(w0, "fuel_gas_price_algorithm::utils::cumulative_percentage_change")
+        ctx.arg_origin("3.v0-price", c0, 0, f"field:{V0}.new_exec_price", depth=0)
+        ctx.arg_origin("3.v0-rate", c0, 2, f"field:{V0}.percentage", depth=0)
+        ctx.arg_origin("3.v0-from", c0, 1, f"field:{V0}.for_height", depth=0)
